@@ -455,10 +455,38 @@ func TestPropConcurrent(t *testing.T) {
 		allDone := make(chan struct{})
 		go func() { wg.Wait(); close(allDone) }()
 		if stopMid {
+			// a writer that does not wait for replies keeps publishing while the store
+			// stops: stopping must not depend on the senders pausing
+			floodStop := make(chan struct{})
+			floodDone := make(chan struct{})
+			fnc, err := in.Connect()
+			if err != nil {
+				t.Fatalf("connect: %v", err)
+			}
+			go func() {
+				defer close(floodDone)
+				defer fnc.Close()
+				fp := data.Points{{Type: "flood", Value: 1, Time: time.Unix(0, base-1), Origin: "f"}}
+				b, _ := fp.ToPb()
+				for {
+					select {
+					case <-floodStop:
+						return
+					default:
+					}
+					if fnc.Publish("p.s2", b) != nil {
+						return
+					}
+					time.Sleep(20 * time.Microsecond)
+				}
+			}()
 			time.Sleep(time.Duration(rapid.IntRange(1, 40).Draw(t, "stopAfterMs")) * time.Millisecond)
 			close(stopping)
-			if err := in.StopStore(15 * time.Second); err != nil {
-				t.Fatalf("%v", err)
+			err = in.StopStore(15 * time.Second)
+			close(floodStop)
+			<-floodDone
+			if err != nil {
+				t.Fatalf("%v (while another client kept publishing)", err)
 			}
 		}
 		select {
